@@ -22,7 +22,7 @@ func (g *gl) share(c *glCtx, k glK) string {
 	g.jn++
 	name := fmt.Sprintf("%s_j%d", g.cur.lean, g.jn)
 	decl, args := g.params(c.scope)
-	fmt.Fprintf(&g.out, "def %s (fuel : Nat) %s : X %s :=\n %s\n\n", name, decl, g.cur.resT, body)
+	fmt.Fprintf(g.fb, "def %s (fuel : Nat) %s : X %s :=\n %s\n\n", name, decl, g.cur.resT, body)
 	return strings.TrimSpace("(" + name + " fuel " + args + ")")
 }
 
@@ -248,7 +248,7 @@ func (g *gl) forStmt(init ast.Stmt, cond ast.Expr, post ast.Stmt, body *ast.Bloc
 		if cond != nil {
 			condT = g.expr(g.nnf(cond, false), &cb)
 		}
-		fmt.Fprintf(&g.out, "def %s (fuel : Nat) %s : X %s :=\n match fuel with\n | 0 => X.fuel\n | fuel + 1 =>\n %s\n\n",
+		fmt.Fprintf(g.fb, "def %s (fuel : Nat) %s : X %s :=\n match fuel with\n | 0 => X.fuel\n | fuel + 1 =>\n %s\n\n",
 			name, decl, resT, glWrap(cb, fmt.Sprintf("(if %s then\n %s\n else\n %s)", condT, bodyT, exit)))
 		if cps {
 			return call
@@ -343,7 +343,7 @@ func (g *gl) rangeStmt(x *ast.RangeStmt, c *glCtx, k glK) string {
 		inner = inner.with(valV)
 	}
 	bodyT := glWrap(ib, g.block(x.Body, inner, func(_ *glCtx) string { return next }))
-	fmt.Fprintf(&g.out, "def %s (fuel : Nat) %s : X %s :=\n match fuel with\n | 0 => X.fuel\n | fuel + 1 =>\n (if (decide (%s < (len %s))) then\n %s\n else\n %s)\n\n",
+	fmt.Fprintf(g.fb, "def %s (fuel : Nat) %s : X %s :=\n match fuel with\n | 0 => X.fuel\n | fuel + 1 =>\n (if (decide (%s < (len %s))) then\n %s\n else\n %s)\n\n",
 		name, decl, resT, g.vname(hi), g.vname(hs), bodyT, exit)
 	call := callWith(g.vname(hi))
 	if cps {
@@ -366,8 +366,8 @@ func (g *gl) translateFn(fn *glFn) bool {
 		return false
 	}
 	fn.busy = true
-	saved, savedJ := g.cur, g.jn
-	g.cur, g.jn = fn, 0
+	saved, savedJ, savedFb := g.cur, g.jn, g.fb
+	g.cur, g.jn, g.fb = fn, 0, &strings.Builder{}
 	nBad := len(g.unsupported)
 	sig := fn.obj.Type().(*types.Signature)
 	fn.lean = shortPkg(fn.pkg.PkgPath) + "_" + fn.obj.Name()
@@ -447,12 +447,15 @@ func (g *gl) translateFn(fn *glFn) bool {
 	g.checkAliasing(fn)
 	fn.ok = len(g.unsupported) == nBad
 	if fn.ok {
-		fmt.Fprintf(&g.out, "/-- `%s` (%s) -/\ndef %s (fuel : Nat) %s : X %s :=\n %s\n\n", fn.obj.FullName(),
+		fmt.Fprintf(g.fb, "/-- `%s` (%s) -/\ndef %s (fuel : Nat) %s : X %s :=\n %s\n\n", fn.obj.FullName(),
 			fn.pkg.Fset.Position(fn.decl.Pos()).Filename[strings.Index(fn.pkg.Fset.Position(fn.decl.Pos()).Filename, "/"+shortPkg(fn.pkg.PkgPath)+"/")+1:],
 			fn.lean, decl, fn.resT, glWrap(pre, body))
 	}
+	if fn.ok {
+		g.out.WriteString(g.fb.String()) // a function that failed leaves nothing behind (not even its loops and join points)
+	}
 	fn.done, fn.busy = true, false
-	g.cur, g.jn = saved, savedJ
+	g.cur, g.jn, g.fb = saved, savedJ, savedFb
 	return fn.ok
 }
 
